@@ -86,8 +86,15 @@ class Hexital:
             elif indicator.timeframe and indicator.timeframe in self._candles:
                 indicator.candle_manager = self._candles[indicator.timeframe]
             else:
+                candles = deepcopy(self._candles[DEFAULT_CANDLES].candles)
+                if indicator.timeframe != self._candles[DEFAULT_CANDLES].timeframe:
+                    # a different timeframe collapses the raw values and converts its own buckets
+                    for candle in candles:
+                        candle.recover_clean_values()
+                        candle.clean_values = {}
+                        candle.reset_candle()
                 manager = CandleManager(
-                    deepcopy(self._candles[DEFAULT_CANDLES]).candles,
+                    candles,
                     candles_lifespan=self.candles_lifespan,
                     timeframe=indicator.timeframe if indicator.timeframe else self.timeframe,
                     timeframe_fill=self.timeframe_fill,
@@ -204,7 +211,9 @@ class Hexital:
         self._indicators.pop(name, None)
 
     def append(self, candles: Candle | List[Candle] | dict | List[dict] | list | List[list]):
-        for candle_manager in self._candles.values():
+        managers = list(self._candles.values())
+        # the default manager keeps (and converts) the caller's Candle objects: it goes last
+        for candle_manager in managers[1:] + managers[:1]:
             candle_manager.append(candles)
 
         self.calculate()
